@@ -96,7 +96,9 @@ def run_grammar(ctx, G, family, inputs, optsets, engines=ENGINES):
                         ctx.count('lalr-rejects-member(C02 scope)')
                     elif parser == 'cyk':
                         ctx.count('cyk-rejects-or-unsupported')
-                        if not has_nullable and out[1]['class'] not in ('ParseError',):
+                        if not has_nullable:
+                            # CYK has no empty rules; on every other grammar it "supports the grammar", and a ParseError on a
+                            # member is a wrong answer like any other
                             ctx.violation('cyk-fails-on-member', case, {'exc': out[1]})
                     else:
                         ctx.violation('engine-rejects-member:%s/%s' % (parser, lexer), case, {'exc': out[1]})
@@ -182,6 +184,15 @@ def run_batch(ctx):
             G = {'rules': rules, 'terms': ALLT, 'ignore': [], 'start': ['start']}
             run_grammar(ctx, G, 'corpus:' + name, inputs, OPTSETS)
             ctx.count('corpus')
+    if ctx.batch == 1:
+        # parallel chains of unit rules that end in the same rule (CYK eliminates unit rules; what it keeps must not depend
+        # on the iteration order of a set, so the same grammar is tried under many rule names)
+        for k in range(24):
+            n1, n2, n3, n4 = ['%s%d' % (c, k) for c in 'pqrs']
+            rules = [ru('start', [al([['r', n1], ['r', n2]])]), ru(n1, [al([['r', n3]])]), ru(n2, [al([['r', n3]])]), ru(n3, [al([['r', n4]])]),
+                     ru(n4, [al([tX, tB])])]
+            run_grammar(ctx, {'rules': rules, 'terms': ALLT, 'ignore': [], 'start': ['start']}, 'corpus:parallel-unit-chains', ['xbxb'], OPTSETS[:1])
+        ctx.count('corpus:parallel-unit-chains')
     for i in range(n):
         if not ctx.time_left():
             ctx.count('stopped-on-time-budget')
